@@ -649,3 +649,38 @@ def _make_unique(model, extra):
         if r1.ast_type != A.ASTType.Variable:
             problems.append("result is not a Variable")
     return {"confirmed": bool(problems), "problems": problems}
+
+
+# ---------------------------------------------------------------------------------------------
+# C11
+@mirror("inequalities")
+def _inequalities(model, extra):
+    import itertools
+
+    from ngo.symmetry import SymmetryTranslator
+
+    body = [b for b in build(model["body"]) if b is not None]
+    try:
+        ret = SymmetryTranslator._inequalities(body)  # pylint: disable=protected-access
+    except Exception as e:  # pylint: disable=broad-except
+        return {"confirmed": False, "exception": repr(e)}
+    vals = [clingo.Number(1), clingo.Number(2), clingo.Function("a", [])]
+    for op, entries in ret.items():
+        opn = NAME_OF[A.ComparisonOperator(op)]
+        if opn not in ("NotEqual", "LessThan"):
+            return {"confirmed": True, "why": f"unexpected key {opn}"}
+        for lit, x, y in entries:
+            if lit not in body:
+                return {"confirmed": True, "why": f"{lit} is not a literal of the body"}
+            g = lit.atom.guards[0]
+            for vx, vy in itertools.product(vals, repeat=2):
+                asg = {str(x): vx, str(y): vy}
+                if str(lit.atom.term) not in asg or str(g.term) not in asg:
+                    continue
+                holds = sym_cmp(A.ComparisonOperator(g.comparison), asg[str(lit.atom.term)], asg[str(g.term)])
+                if lit.sign == A.Sign.Negation:
+                    holds = not holds
+                rel = (vx != vy) if opn == "NotEqual" else (vx < vy)
+                if holds and not rel:
+                    return {"confirmed": True, "literal": str(lit), "recorded_as": f"{x} {'!=' if opn == 'NotEqual' else '<'} {y}", "assignment": {k: str(v) for k, v in asg.items()}}
+    return {"confirmed": False, "body": [str(b) for b in body]}
